@@ -199,7 +199,17 @@ func Generate(w *spec.World, pl *Plugins, modDir string, opt Options) *Built {
 	}
 	httpParam := ""
 	if w.Mock {
-		httpParam = "generate_mock=true"
+		// the option is a boolean flag of the plugin: every spelling a Go flag accepts as true
+		// asks for the mock (chosen by the world's name, so a replay uses the same one)
+		sp := []string{"true", "true", "1", "t", "T", "TRUE", "True"}
+		h := 0
+		for _, c := range w.Name {
+			h = h*31 + int(c)
+		}
+		if h < 0 {
+			h = -h
+		}
+		httpParam = "generate_mock=" + sp[h%len(sp)]
 	}
 	type job struct{ name, param string }
 	jobs := []job{{"protoc-gen-go", ""}, {"protoc-gen-go-http", httpParam}, {"protoc-gen-go-client", ""}}
